@@ -22,6 +22,7 @@
 (* so that DebuggerTrace.tla can replay the hook's lock-ordered event log through the very same    *)
 (* operators. The CPU is the index `ix` into the uninterrupted run R of DbgCpu (deterministic).    *)
 (*                                                                                                 *)
+(* "StepOutReadsTopOfStack": stepOut trusts the two bytes above the stack pointer (DbgAdapter).     *)
 (* Deviations (DESIGN.md section 3): with "PauseRace" in Deviations the model is implementation-   *)
 (* shaped: MExec does not look at the state again and pause is two critical sections. With the     *)
 (* deviation removed the model is the candidate repair: pause holds the runner read lock across    *)
@@ -121,7 +122,7 @@ StepWant(kind, j) == CASE kind = "stepIn" -> {StepInT(R, j)}
                        [] kind = "next" -> {NextT(Prog, R, j)}
                        [] kind = "stepOut" -> IF UnspecOut(R, j) THEN j..Len(R) ELSE {StepOutT(R, j)}
 SStep     == /\ Held /\ Idle /\ req.k \in {"stepIn", "next", "stepOut"}
-             /\ s' = SExec(Prog, R, s, req.k)
+             /\ s' = SExec(Prog, R, s, req.k, Deviations)
              /\ g' = [g EXCEPT !.halt = NoHalt, !.stepFrom = s.ix, !.stepWant = StepWant(req.k, s.ix)]
              /\ UNCHANGED <<req, cl, nreq, lk>>
 SPRead    == /\ Held /\ s.sp = "pread" /\ s' = PauseNow(s)
